@@ -4,6 +4,8 @@ EXTENDS TibcCoreMC
 
 Links3 == [c \in Chains |-> Chains \ {c}]                      \* T3: full mesh A, B, C
 RuleSetsSmall == { {}, {<<"A", "*", "mock">>} }
+NoPairs == {}
+ExpireCA == {<<"C", "A">>}
 RuleSetsGen == { {}, {<<"A", "C", "mock">>}, {<<"*", "*", "*">>}, {<<"A", "*", "mock">>, <<"C", "A", "*">>},
                  {<<"*", "C", "nft">>}, {<<"C", "A", "mock">>} }
 =============================================================================
